@@ -13,7 +13,7 @@ import Proofs.Hyperslab
 import Props.C03
 import Proofs.DmrDemo
 namespace Pydap.C10
-open Pydap Pydap.Dap4 Pydap.Dmr
+open Pydap Pydap.Dap4 Pydap.Dmr Pydap.Dap4Index
 
 /-- the chunk-type field written by a conforming sender is read back flag for flag -/
 theorem C10_chunktype (last error little : Bool) :
